@@ -632,17 +632,23 @@ func c15TemplateSource(r *Run, s *c15Sel) {
 				good, "argument "+descValueC(arg)+" resolves to "+strings.Join(d, "; "))
 			// second witness: the same caller value names Status.Canary.ReplicaSet (through a callee that stores <param>.Name there)
 			caller := cs.Parent()
-			recorded, seen := false, false
+			recorded, seen := true, false
 			for _, ci := range callsIn(caller) {
 				cal := staticCallee(ci.Common())
 				if cal == nil || !r.Prog.IsRuleSite(cal) {
 					continue
 				}
 				for _, st := range fieldStoresInC(cal, pkgAPI, "ExtendedDaemonSetStatusCanary", "ReplicaSet") {
+					// the witness is emitted only when the stored value is identified as the name of a
+					// replica-set parameter of the callee (P.Name, P.ObjectMeta.Name or P.GetName());
+					// otherwise the first witness alone decides the clause
+					pr := c15NameOfParam(st.Val)
+					if pr == nil || !isPtrToNamed(pr.Type(), pkgAPI, "ExtendedDaemonSetReplicaSet") || paramIndex(pr) >= len(ci.Common().Args) {
+						continue
+					}
 					seen = true
-					root, pp := accessPath(unwrap(st.Val))
-					if pr, ok := root.(*ssa.Parameter); ok && pathIsMetaC(pp, "Name") && paramIndex(pr) < len(ci.Common().Args) && ci.Common().Args[paramIndex(pr)] == arg {
-						recorded = true
+					if ci.Common().Args[paramIndex(pr)] != arg {
+						recorded = false
 					}
 				}
 			}
@@ -652,6 +658,39 @@ func c15TemplateSource(r *Run, s *c15Sel) {
 			}
 		}
 	}
+}
+
+// c15NameOfParam: v is P.Name, P.ObjectMeta.Name or P.GetName() for a parameter P; returns P.
+func c15NameOfParam(v ssa.Value) *ssa.Parameter {
+	v = unwrap(v)
+	var root ssa.Value
+	if c, ok := v.(*ssa.Call); ok {
+		if !strings.HasSuffix(calleeName(&c.Call), ".GetName") {
+			return nil
+		}
+		var recv ssa.Value
+		switch {
+		case c.Call.IsInvoke():
+			recv = unwrap(c.Call.Value)
+		case len(c.Call.Args) == 1:
+			recv = c.Call.Args[0]
+		default:
+			return nil
+		}
+		rt, p := accessPath(recv)
+		if !pathIsMetaC(p) {
+			return nil
+		}
+		root = rt
+	} else {
+		rt, p := accessPath(v)
+		if !pathIsMetaC(p, "Name") {
+			return nil
+		}
+		root = rt
+	}
+	pr, _ := root.(*ssa.Parameter)
+	return pr
 }
 
 // ---------------------------------------------------------------------------------------------
